@@ -1239,6 +1239,7 @@ aiff_write_header (SF_PRIVATE *psf, int calc_length)
 	uint32_t	comm_type, comm_size, comm_encoding, comm_frames = 0, uk ;
 	int				ret, k, endian, has_data = SF_FALSE ;
 	int16_t			bit_width ;
+	size_t			ssnd_pad ;
 
 	if ((paiff = psf->container_data) == NULL)
 		return SFE_INTERNAL ;
@@ -1499,7 +1500,10 @@ aiff_write_header (SF_PRIVATE *psf, int calc_length)
 
 	/* Write SSND chunk. */
 	paiff->ssnd_offset = psf->header.indx ;
-	psf_binheader_writef (psf, "Etm844", BHWm (SSND_MARKER), BHW8 (psf->datalength + SIZEOF_SSND_CHUNK), BHW4 (0), BHW4 (0)) ;
+
+	/* If the header got shorter (a string replaced after the audio), the audio stays where it is : use the SSND offset field. */
+	ssnd_pad = (has_data && psf->header.indx + 16 < psf->dataoffset) ? psf->dataoffset - (psf->header.indx + 16) : 0 ;
+	psf_binheader_writef (psf, "Etm844z", BHWm (SSND_MARKER), BHW8 (psf->datalength + SIZEOF_SSND_CHUNK + ssnd_pad), BHW4 (ssnd_pad), BHW4 (0), BHWz (ssnd_pad)) ;
 
 	/* Header construction complete so write it out. */
 	psf_fwrite (psf->header.ptr, psf->header.indx, 1, psf) ;
